@@ -91,7 +91,9 @@ CHECKS = {
     "C15": dict(
         title="Transport failure is detected, reported once and recoverable, repeatedly",
         legs=[leg("TestC15History", quick=(400, 4), thorough=(4000, 15), timeout_s=3000, prefixes=["c15."]),
-              leg("TestC15Cut", fixed=True, timeout_s=3000)],
+              leg("TestC15Cut", fixed=True, timeout_s=3000),
+              # NATS client transport: Open / Close / IsOpen across broker outages (private broker, restarted on its port)
+              leg("TestC15Nats", quick=(25, 4), thorough=(400, 8), timeout_s=3000, prefixes=["c15n."])],
         coverage_extra={"exhaustive_subspaces": "c15.cut enumerates every byte offset (0..len) of the multi-frame stream shapes x {EOF, I/O error} completely (quick: 1 shape, thorough: 5 shapes); c15.history is sampled"},
         level="fault_enumeration",
         technique="model-based property testing (rapid) of open/fail/reopen/close histories with fault injection on a scripted byte stream + exhaustive enumeration of cut offsets; reference model of the close state machine and monitor policy",
